@@ -255,8 +255,10 @@ PROPS = {
         "partial": "only dispatch, format override and counting are proved; equality of printed results with the library's is observed on the corpus",
     },
     "C16": {
-        "proofs": ["ZlProofs.Props.C16"],
-        "corr": ["rsa"],
+        # C16Terms: the arithmetic theorems restated on the rule terms regenerated from the RSA lints' source; Bodies: the
+        # evaluator those terms run on; C05: the lints do not write the key they read (a verdict is a function of (N, e))
+        "proofs": ["ZlProofs.Props.C16", "ZlProofs.Props.C16Terms", "ZlProofs.Props.Bodies", "ZlProofs.Props.C05"],
+        "corr": ["rsa", "bodies"],
         "search": [],
         "obligations": [ob_primes],
         "trusted_base": TB_COMMON + ["Mathlib v4.33.0 tactics ring / linarith / nlinarith used in ZlProofs.Props.C16 (no axioms beyond the three standard ones)"],
